@@ -313,9 +313,20 @@ def _run_case(ck, desc):
         return mob > 0, {"concurrent_calls": n_calls}
     with TRAP:
         if kind == "records":
-            relative_permeabilities(_records(desc["sats"], desc.get("order", 0)), params)
+            res_ = relative_permeabilities(_records(desc["sats"], desc.get("order", 0)), params)
             mob = judge_events(ck, desc)
             _strict_fp(ck, desc, params)
+            # non-decreasing in the phase's OWN saturation across the whole batch, whatever the other two
+            # phases do in each record (some of them below their residual by different amounts)
+            sa_ = np.asarray(desc["sats"], dtype=float).reshape(-1, 3)
+            if len(sa_) >= 2:
+                for ph, (kn, col) in enumerate(zip(NAMES, (0, 1, 2))):
+                    o_ = np.argsort(sa_[:, col], kind="stable")
+                    kv = np.asarray(res_[kn], dtype=float)[o_]
+                    if np.all(np.isfinite(kv)) and not ck.margin("monotone-in-own-saturation (across records)", float(max(np.max(kv[:-1] - kv[1:]), 0.0)), 1e-12):
+                        j_ = int(np.argmax(kv[:-1] - kv[1:]))
+                        ck.violation("monotone-in-own-saturation", {"phase": kn, "across_records": True, "lower_saturation": sa_[o_[j_]].tolist(), "higher_saturation": sa_[o_[j_ + 1]].tolist(), "k": [float(kv[j_]), float(kv[j_ + 1])]}, desc)
+                ck.count("batches_sorted_by_own_saturation")
         if kind == "records" and len(desc["sats"]) >= 1:
             # twin call: the same records with every residual raised by 2e-6 right afterwards - phases
             # that sat within 1e-6 above their residual are now at or below it and must read exactly 0
